@@ -4,7 +4,7 @@
 From Coq Require Import List Bool Arith QArith Qcanon.
 Import ListNotations.
 Require Import SC.Base.Ord SC.Base.Val SC.Base.Series SC.Base.QcOrd.
-Require Import SC.Model.Repr SC.Model.Ops SC.Model.Masking SC.Model.Sampling SC.Model.Stats.
+Require Import SC.Model.Repr SC.Model.Ops SC.Model.Masking SC.Model.Sampling SC.Model.Stats SC.Model.Slicing.
 Open Scope Qc_scope.
 
 Notation ser := (list (Qc * V)).
@@ -29,7 +29,6 @@ Definition wtouch (w : world) (r : nat) (fn : stairsQ -> stairsQ) : world :=
 Inductive arg := AReg (r : nat) | AConst (c : V).
 Inductive unop := UNeg | UInvert | UMakeBool | UIsna | UNotna | UCopy | UFfill | UBfill.
 Inductive readkind := RValues | RDeltas | RFrame.
-Inductive ivclosed := IvLeft | IvRight | IvBoth | IvNeither.
 
 Inductive query :=
 | QLimit (sd : lside) (xs : list Qc)
@@ -48,7 +47,12 @@ Inductive query :=
 | QVir (lo hi : option Qc) (cl : option ivclosed)
 | QMin (lo hi : option Qc) (cl : option ivclosed)
 | QMax (lo hi : option Qc) (cl : option ivclosed)
-| QAgg (name : aggname) (lo hi : option Qc) (cl : option ivclosed).
+| QAgg (name : aggname) (lo hi : option Qc) (cl : option ivclosed)
+| QSlicer (st : sstat) (icl : ivclosed) (ivs : list (Qc * Qc))
+| QCov (b : nat) (lo hi : option Qc) (lag : Qc) (lc : lagclip)
+| QCorr (b : nat) (lo hi : option Qc) (lag : Qc) (lc : lagclip)
+| QRolling (l r : Qc) (lo hi : option Qc)
+| QDescribe (lo hi : option Qc) (ps : list Qc).
 
 Inductive stmt :=
 | SNew (r : nat) (i : V) (c : side)
@@ -64,6 +68,8 @@ Inductive stmt :=
 | SFillG (r a g : nat)
 | SShift (r a : nat) (d : Qc)
 | SDiff (r a : nat) (d : Qc)
+| SResample (r a : nat) (st : sstat) (icl : ivclosed) (ivs : list (Qc * Qc))
+| SAgg (r : nat) (g : aggf) (ms : list nat)
 | SQuery (r : nat) (q : query).
 
 Inductive obs :=
@@ -164,6 +170,22 @@ Definition exec_query (w : world) (r : nat) (o : obj) (q : query) : world * obs 
   | QVir lo hi cl => (wv, OKeys (values_in_range f lo hi (lims_of f cl)))
   | QMin lo hi cl => (wv, OVal (vmin (values_in_range f lo hi (lims_of f cl))))
   | QMax lo hi cl => (wv, OVal (vmax (values_in_range f lo hi (lims_of f cl))))
+  | QSlicer st icl ivs =>
+      (wv, match slicer_stat st f icl ivs with Some l => OVals l | None => OErr EOther end)
+  | QCov b lo hi lag lc =>
+      match wget w b with
+      | Some ob => (w, match cov f (st ob) lo hi lag lc with Ok v => OVal v | Err e => OErr e end)
+      | None => (w, OErr EOther)
+      end
+  | QCorr b lo hi lag lc =>
+      match wget w b with
+      | Some ob => (w, match corr_signed_square f (st ob) lo hi lag lc with Ok v => OVal v | Err e => OErr e end)
+      | None => (w, OErr EOther)
+      end
+  | QRolling l r lo hi =>
+      (wv, match rolling_mean f l r lo hi with Ok rows => OSer rows | Err e => OErr e end)
+  | QDescribe lo hi ps =>
+      (wv, match describe f lo hi ps with Ok l => OVals l | Err e => OErr e end)
   | QAgg name lo hi cl =>
       if negb (bounds_ok lo hi) then (wv, OErr EValue) else      (* agg clips first: lower < upper required *)
       match name with
@@ -266,6 +288,16 @@ Definition exec (w : world) (s : stmt) : world * obs :=
       match wget w a with
       | None => (w, OErr EOther)
       | Some x => bind_result w r (Ok (diff (st x) d))
+      end
+  | SResample r a st icl ivs =>
+      match wget w a with
+      | None => (w, OErr EOther)
+      | Some x => bind_result w r (resample st (Prog.st x) icl ivs)
+      end
+  | SAgg r g ms =>
+      match sequence (map (wget w) ms) with
+      | None => (w, OErr EOther)
+      | Some os => bind_result w r (array_agg g (map Prog.st os))
       end
   | SQuery r q =>
       match wget w r with
